@@ -303,6 +303,45 @@ var c20Helpers = []c20Helper{
 		return ""
 	}},
 	{"MarshalJSON", []string{"top", "list", "prop"}, func(it ap.Item) string { _, _ = ap.MarshalJSON(it); return "" }},
+	// nothing is nothing: a value that holds the nil-like item in one property (and nothing else besides id and type) is written,
+	// by both encoders, exactly as the value that does not have that property - one property at a time, every item property of every type
+	{"encoders(one property)", []string{"top"}, func(it ap.Item) string {
+		for _, st := range vocab.StructTypes {
+			mk := func() reflect.Value {
+				p := reflect.New(st)
+				p.Elem().FieldByName("ID").SetString("https://example.com/sparse")
+				p.Elem().FieldByName("Type").SetString(string(vocab.DefaultType[st.Name()]))
+				return p
+			}
+			base := mk().Interface().(ap.Item)
+			bj, _ := ap.MarshalJSON(base)
+			for _, f := range vocab.Fields(st) {
+				if f.Kind != vocab.KItem {
+					continue
+				}
+				p := mk()
+				item := it
+				p.Elem().Field(f.Index).Set(reflect.ValueOf(&item).Elem())
+				x := p.Interface().(ap.Item)
+				if xj, err := ap.MarshalJSON(x); err != nil || string(xj) != string(bj) {
+					return fmt.Sprintf("%s with a nil %s is written as %q (err=%v), without it as %q", st.Name(), f.Name, xj, err, bj)
+				}
+				// the binary form has no fixed member order: what it says is what it decodes to
+				xg, err := ap.GobEncode(x)
+				if err != nil {
+					return fmt.Sprintf("%s with a nil %s: gob encoding fails with %v", st.Name(), f.Name, err)
+				}
+				back, derr := ap.GobDecode(xg)
+				if derr != nil {
+					return fmt.Sprintf("%s with a nil %s: what the gob encoder wrote does not decode: %v", st.Name(), f.Name, derr)
+				}
+				if d := vocab.DiffTop(base, back, vocab.GobForm); len(d) > 0 {
+					return fmt.Sprintf("%s with a nil %s: stored and read back it differs from the value without the property: %v", st.Name(), f.Name, d[0])
+				}
+			}
+		}
+		return ""
+	}},
 	{"GobEncode", []string{"top", "list", "prop"}, func(it ap.Item) string { _, _ = ap.GobEncode(it); return "" }},
 	{"CollectionPath.IRI/Of/AddTo", []string{"top", "list", "list1", "collection-prop"}, func(it ap.Item) string {
 		for _, c := range []ap.CollectionPath{ap.Inbox, ap.Outbox, ap.Liked, ap.Following, ap.Followers, ap.Likes, ap.Shares, ap.Replies} {
